@@ -498,7 +498,7 @@ def tt_ind2sub(
     """
     if idx.size == 0:
         return np.empty(shape=(0, len(shape)), dtype=int)
-    idx = np.array(idx)  # never write into the caller's index array
+    idx = np.array(idx).astype(int)  # never write into the caller's index array; platform ints
     idx[idx < 0] += prod(shape)  # Handle negative indexing as simply as possible
     return np.array(np.unravel_index(idx, shape, order=order)).transpose()
 
